@@ -82,7 +82,9 @@ class CFG:
         qual: str,
         inline_depth: int = 3,
         engine_pred: Callable[[ast.Call, Module], bool] | None = None,
+        pure_pred: Callable[[ast.Call], bool] | None = None,
     ):
+        self.pure_pred = pure_pred
         self.prog = prog
         self.mod = prog.mod(mod)
         self.qual = qual
@@ -152,6 +154,8 @@ class CFG:
     # ------------------------------------------------------------------ classification
     def _call_families(self, call: ast.Call) -> set[str]:
         f = call.func
+        if self.pure_pred is not None and self.pure_pred(call):
+            return set()
         if self.engine_pred(call, self._m):
             return {"duckdb"}
         name = None
@@ -161,6 +165,8 @@ class CFG:
                 return set()
         if isinstance(f, ast.Attribute) and f.attr in PURE_METHODS:
             return set()
+        if isinstance(f, ast.Attribute) and f.attr in ("ExitStack",):
+            return set()  # stdlib constructor that cannot fail
         return {"generic"}
 
     def _resolve_callee(self, call: ast.Call) -> tuple[str, str] | None:
